@@ -168,10 +168,92 @@ class Machine:
             return Obj(name='datetime', attrs={'now': (lambda: now)})
         if nm == 'math': return Obj(name='math', attrs={'floor': (lambda v: int(v // 1) if not isinstance(v, X.Node) else int(I.concrete(v) // 1)), 'ceil': (lambda v: -int(-v // 1))})
         if nm == 'os': return self.os_obj()
+        if nm == 'shutil': return self.shutil_obj()
+        if nm == 'json': return self.json_obj()
+        if nm == 'glob': return Obj(name='glob', attrs={'glob': self.glob})
+        if nm in ('Path', 'PurePath'): return self.path_ctor
+        if nm == 'pathlib': return Obj(name='pathlib', attrs={'Path': self.path_ctor, 'PurePath': self.path_ctor})
         if nm == 'convert_time_to_hhmmss': return (lambda *a, **k: '00:00:00')
         if nm == 'namedtuple': return self.namedtuple
         if nm in ('open', 'sorted', 'reversed', 'repr', 'format', 'iter', 'next', 'map', 'filter'): return Builtin(nm)
         return None
+
+    # ---- further standard-library access to the file system (same model file system, same recorded effects)
+    def rmtree(self, p, **k):
+        fs = self.fs; p = norm(p); pre = p.rstrip('/') + '/'
+        if p not in fs.dirs and not k.get('ignore_errors'):
+            raise RaiseSignal(ast.Raise(exc=ast.Name(id='FileNotFoundError', ctx=ast.Load()), cause=None), f'FileNotFoundError({p})')
+        # a tree is removed entry by entry: every intermediate state is durable
+        for q in sorted([q for q in fs.files if q.startswith(pre)], reverse=True):
+            fs.files.pop(q); fs.effect(f'remove {q}')
+        for q in sorted([q for q in fs.dirs if q == p or q.startswith(pre)], key=len, reverse=True):
+            fs.dirs.discard(q); fs.effect(f'rmdir {q}')
+
+    def move(self, a, b):
+        fs = self.fs; a, b = norm(a), norm(b)
+        if a in fs.files:
+            fs.files[b] = fs.files.pop(a); fs.effect(f'rename {a} -> {b}'); return b
+        if a in fs.dirs:
+            pre = a.rstrip('/') + '/'
+            for q in [q for q in list(fs.files) if q.startswith(pre)]: fs.files[b + '/' + q[len(pre):]] = fs.files.pop(q)
+            for q in [q for q in list(fs.dirs) if q == a or q.startswith(pre)]:
+                fs.dirs.discard(q); fs.dirs.add(b + q[len(a):])
+            fs.effect(f'rename {a} -> {b}'); return b
+        raise RaiseSignal(ast.Raise(exc=ast.Name(id='FileNotFoundError', ctx=ast.Load()), cause=None), f'FileNotFoundError({a})')
+
+    def copyfile(self, a, b, **k):
+        fs = self.fs; a, b = norm(a), norm(b)
+        if a not in fs.files:
+            raise RaiseSignal(ast.Raise(exc=ast.Name(id='FileNotFoundError', ctx=ast.Load()), cause=None), f'FileNotFoundError({a})')
+        c = fs.files[a]
+        fs.files[b] = [] if isinstance(c, list) else ('npz-incomplete', None); fs.effect(f'create {b}')
+        fs.files[b] = list(c) if isinstance(c, list) else c; fs.effect(f'complete {b}')
+        return b
+
+    def shutil_obj(self):
+        return Obj(name='shutil', attrs={'rmtree': self.rmtree, 'move': self.move, 'copy': self.copyfile, 'copy2': self.copyfile, 'copyfile': self.copyfile})
+
+    def glob(self, pattern, **k):
+        import fnmatch
+        fs = self.fs
+        return sorted(q for q in list(fs.dirs) + list(fs.files) if fnmatch.fnmatchcase(q, norm(pattern)))
+
+    def json_obj(self):
+        import json as _json
+
+        def plain(v):
+            if isinstance(v, X.Node):
+                c = I.concrete(v)
+                if c is None: raise AnalysisError('json of a symbolic value')
+                v = c
+            if isinstance(v, Fraction): return int(v) if v.denominator == 1 else float(v)
+            if isinstance(v, dict): return {str(k_) if not isinstance(k_, str) else k_: plain(x_) for k_, x_ in v.items()}
+            if isinstance(v, (list, tuple, Vec)): return [plain(x_) for x_ in v]
+            if isinstance(v, Obj) and isinstance(v.attrs.get('__iter__'), (list, tuple)): return [plain(x_) for x_ in v.attrs['__iter__']]
+            return v
+
+        def dumps(o, **k): return _json.dumps(plain(o), **{kk: vv for kk, vv in k.items() if kk in ('indent', 'sort_keys')})
+        def loads(t, **k):
+            try:
+                return _json.loads(t, parse_float=lambda x_: Fraction(x_), parse_int=int)
+            except ValueError as ex:
+                raise RaiseSignal(ast.Raise(exc=ast.Name(id='JSONDecodeError', ctx=ast.Load()), cause=None), f'JSONDecodeError({ex})')
+        def dump(o, fh, **k): fh.attrs['write'](dumps(o, **k))
+        def load(fh, **k): return loads(fh.attrs['read']())
+        return Obj(name='json', attrs={'dumps': dumps, 'loads': loads, 'dump': dump, 'load': load})
+
+    def path_ctor(self, *parts):
+        m = self; fs = self.fs
+        p = norm('/'.join(str(getattr(q, 'attrs', {}).get('__fspath__', q)) for q in parts))
+        o = Obj(name=f'Path({p})', attrs={'__fspath__': p})
+        o.attrs.update({
+            'exists': (lambda: p in fs.dirs or p in fs.files), 'is_file': (lambda: p in fs.files), 'is_dir': (lambda: p in fs.dirs),
+            'mkdir': (lambda **k: fs.makedirs(p)), 'open': (lambda mode='r', **k: m.file_obj(p, mode)), 'unlink': (lambda **k: (fs.files.pop(p, None), fs.effect(f'remove {p}')) and None),
+            'read_text': (lambda **k: m.file_obj(p, 'r').attrs['read']()), 'write_text': (lambda t, **k: m.file_obj(p, 'w').attrs['write'](t)),
+            'joinpath': (lambda *q: m.path_ctor(p, *q)), 'iterdir': (lambda: [m.path_ctor(p, n_) for n_ in fs.listdir(p)]), 'name': p.split('/')[-1], 'parent': None,
+            'with_suffix': (lambda sfx: m.path_ctor(p.rsplit('.', 1)[0] + sfx if '.' in p.split('/')[-1] else p + sfx)), 'rename': (lambda b: m.move(p, getattr(b, 'attrs', {}).get('__fspath__', b))),
+            'replace': (lambda b: m.move(p, getattr(b, 'attrs', {}).get('__fspath__', b))), '__str__': p, '__truediv__': (lambda q: m.path_ctor(p, q))})
+        return o
 
     def namedtuple(self, name, fields, **k):
         fields = tuple(fields.replace(',', ' ').split()) if isinstance(fields, str) else tuple(fields)
@@ -204,8 +286,16 @@ class Machine:
                 fs.files[b] = fs.files.pop(a); fs.effect(f'rename {a} -> {b}')
             else:
                 raise RaiseSignal(ast.Raise(exc=ast.Name(id='FileNotFoundError', ctx=ast.Load()), cause=None), f'FileNotFoundError({a})')
+        def rmdir(p):
+            p = norm(p)
+            if fs.listdir(p):
+                raise RaiseSignal(ast.Raise(exc=ast.Name(id='OSError', ctx=ast.Load()), cause=None), f'OSError(directory not empty: {p})')
+            fs.dirs.discard(p); fs.effect(f'rmdir {p}')
+        path.attrs['getsize'] = (lambda p: sum(len(t_) for t_ in fs.files[norm(p)]) if isinstance(fs.files.get(norm(p)), list) else (0 if fs.files.get(norm(p), (None,))[0] == 'npz-incomplete' else 1))
+        path.attrs['abspath'] = (lambda p: norm(p)); path.attrs['normpath'] = (lambda p: norm(p)); path.attrs['expanduser'] = (lambda p: norm(p))
         return Obj(name='os', attrs={'path': path, 'makedirs': (lambda p, **k: fs.makedirs(norm(p))), 'mkdir': (lambda p, **k: fs.makedirs(norm(p))), 'listdir': (lambda p: fs.listdir(norm(p))),
-                                     'remove': remove, 'rename': rename, 'replace': rename, 'environ': {}, 'sep': '/', 'getcwd': (lambda: '/cwd')})
+                                     'remove': remove, 'unlink': remove, 'rmdir': rmdir, 'rename': rename, 'replace': rename, 'environ': {}, 'sep': '/', 'getcwd': (lambda: '/cwd'), 'getpid': (lambda: 4242),
+                                     'fsync': (lambda *a: None), 'cpu_count': (lambda: 8)})
 
     def call_hook(self, itp, f, args, kwargs, e, fr):
         name = getattr(f, 'name', None) if isinstance(f, Builtin) else None
